@@ -59,7 +59,10 @@ Definition chk_C03 (cfg : gw_cfg) (s : gw_state) (ev : gw_event) (os : list obs)
       | Some f =>
         if exactly ms is_mq_subscribe (MqSubscribe mid false [(f, q)]) then []
         else if none_of ms is_mq_subscribe &&
-                existsb (fun p => match p with Suback _ _ m rc => (m =? mid) && negb (rc =? RC_ACCEPTED) | _ => false end) ps
+                (existsb (fun p => match p with Suback _ _ m rc => (m =? mid) && negb (rc =? RC_ACCEPTED) | _ => false end) ps ||
+                 (* the refusing SUBACK of a sleeping client waits in the sleep buffer (C11) *)
+                 (cstate_eqb (gw_st s) Asleep && (tit =? 0) && negb (has_wildcard name) &&
+                  match snd (new_topic_id cfg s) with None => true | Some _ => false end))
              then []   (* refused locally: topic IDs exhausted (C04) *)
              else [1]
       | None => if none_of ms is_mq_subscribe then [] else [1]
@@ -151,9 +154,12 @@ Definition chk_C04 (cfg : gw_cfg) (s : gw_state) (ev : gw_event) (os : list obs)
      (if consistent_with (gw_handed_out s) (fst e) (snd e) then [] else [3]))) ++
   (* the IDs told within one step are consistent among themselves *)
   (if forallb (fun e => consistent_with hs (fst e) (snd e)) hs then [] else [3]) ++
-  (* after exhaustion nothing new is handed out: registrations of unknown names are refused *)
+  (* after exhaustion nothing new is allocated: every ID told to the client was announced or
+     allocated (e.g. for a SUBSCRIBE whose SUBACK is still due) before, registrations of unknown
+     names are refused *)
   (if gw_no_more_tids s then
-     (if forallb (fun e => existsb (fun h => (fst h =? fst e) && beq (snd h) (snd e)) (gw_handed_out s)) hs then [] else [4])
+     (if forallb (fun e => existsb (fun h => (fst h =? fst e) && beq (snd h) (snd e)) (gw_handed_out s) ||
+                           match gw_registered s !! fst e with Some n => beq n (snd e) | None => false end) hs then [] else [4])
    else []).
 
 (* ------------------------------------------------------------------ C07 *)
@@ -282,11 +288,22 @@ Definition chk_C09 (cfg : gw_cfg) (s : gw_state) (ev : gw_event) (os : list obs)
 (* ------------------------------------------------------------------ C11 *)
 (* While the client is asleep nothing is sent to it, except in the step handling its PINGREQ
    (buffered packets in arrival order, then PINGRESP), its CONNECT (CONNACK) or its DISCONNECT. *)
+(* what the wake-up writes: the buffered packets in arrival order, then PINGRESP.  A buffered
+   packet that exceeds the transport maximum is not written awake or asleep (snSend fails with
+   "packet too long" and the session ends, C23): the flush stops in front of it and the
+   terminating session sends the awake client its DISCONNECT. *)
+Fixpoint flush_expected (buf : list (option N * packet)) : list bytes :=
+  match buf with
+  | [] => [pack Pingresp]
+  | (_, p) :: rest => if len (pack p) <=? MaxPacketLen then pack p :: flush_expected rest
+                       else [pack (Disconnect 0)]   (* the session ends; the awake client is told (C13) *)
+  end.
+
 Definition chk_C11 (cfg : gw_cfg) (s : gw_state) (ev : gw_event) (os : list obs) : list N :=
   if negb (running s) || negb (cstate_eqb (gw_st s) Asleep) then [] else
   match ev_packet ev with
   | Some (Pingreq _) =>
-    if beql (sns os) (map (fun e => pack (snd e)) (gw_buffer s) ++ [pack Pingresp]) then [] else [2]
+    if beql (sns os) (flush_expected (gw_buffer s)) then [] else [2]
   | Some (Connect _ _ _ _ _) | Some (Disconnect _) => []
   | _ => if len (sns os) =? 0 then [] else [1]
   end.
